@@ -73,7 +73,13 @@ EXOTIC_TYPES = ["Vec<Vec<Vec<Vec<String>>>>", "[u8; 32]", "&'static [i32]", "Box
                 "PhantomData<T>", "Result<(), Box<dyn std::error::Error>>", "HashMap<String, HashMap<String, HashMap<String, Vec<Option<(i32, (i32, i32))>>>>>",
                 "tauri::State<'_, std::sync::Mutex<HashMap<String, Vec<u8>>>>", "Option<>".replace("<>", "<Option<Option<Option<i32>>>>"), "dyn Any", "Wrapper<{ N + 1 }>", "[[u8; 4]; 4]",
                 "&'a dyn Trait<'a, T, N>", "Pin<Box<dyn Future<Output = Result<String, String>> + Send + 'static>>", "Vec<impl Trait>", "for<'a> fn(&'a str) -> &'a str",
-                "Option<fn()>", "Größe", "データ", "r#type", "r#struct::r#fn", "Result<Vec<Result<Option<Vec<u8>>, ()>>, !>", "HashMap<(i32, i32), [u8; 2]>", "_"]
+                "Option<fn()>",
+                # paths whose generic arguments sit on a segment that is not the last one, qualified-self paths and turbofish spellings:
+                # once flattened to text their brackets no longer pair up the way the text-level helpers assume
+                "Result<Page>::Checked<String>", "Vec<HashMap<String>::Entries<u32, bool>>", "BTreeMap<K>::Iter<'a, V>", "HashMap<String, i32>::Entry", "Option<Vec<u8>>::Item",
+                "<Vec<T> as IntoIterator>::Item", "<HashMap<K, V> as Index<&K>>::Output", "Result::<(), String>::Ok", "HashMap::<String, Vec<(u8, u8)>>::Keys<'a>",
+                "Vec<<T as Trait>::Out>", "Result<<A as B<C, D>>::E, F>", "Outer<A, B>::Inner<C>::Leaf<D, E>", "HashMap<(A, B)>::X<[u8; 2], (C,)>", "Fn(A, B) -> C", "Box<dyn FnMut(Vec<u8>, (i32, i32)) -> Result<(), ()>>",
+                "Größe", "データ", "r#type", "r#struct::r#fn", "Result<Vec<Result<Option<Vec<u8>>, ()>>, !>", "HashMap<(i32, i32), [u8; 2]>", "_"]
 IDENTS = ["a", "データ", "größe", "r#type", "r#match", "_x", "__", "a1", "ünï", "Ω", "snake_case_name", "x9y", "r#async", "日本語", "camelCase", "SCREAMING", "ä_ö_ü"]
 
 
